@@ -48,6 +48,10 @@ func vrtClientService() (*service, *vrtConn) {
 
 // vrtServeAcks: the peer reads what the client wrote and acknowledges as a
 // server would, as soon as it sees a request; returns the requests seen.
+// vrtSubackExtra > 0: the peer's SUBACK carries that many return codes more
+// than the request had filters (decodable, matching identifier).
+var vrtSubackExtra int
+
 func vrtServeAcks(c *vrtConn, rounds int, full bool) []specPkt {
 	var seen []specPkt
 	for r := 0; r < rounds; r++ {
@@ -74,7 +78,11 @@ func vrtServeAcks(c *vrtConn, rounds int, full bool) []specPkt {
 			case specPUBREL:
 				c.peerSend(specEncode(&specPkt{Typ: specPUBCOMP, ID: p.ID}))
 			case specSUBSCRIBE:
-				c.peerSend(specEncode(&specPkt{Typ: specSUBACK, ID: p.ID, Codes: p.QoS}))
+				codes := append([]byte(nil), p.QoS...)
+				for i := 0; i < vrtSubackExtra; i++ {
+					codes = append(codes, 0)
+				}
+				c.peerSend(specEncode(&specPkt{Typ: specSUBACK, ID: p.ID, Codes: codes}))
 			case specUNSUBSCRIBE:
 				c.peerSend(specEncode(&specPkt{Typ: specUNSUBACK, ID: p.ID}))
 			case specPINGREQ:
@@ -99,6 +107,10 @@ func H12_completion() {
 	pingKind := false
 	if kind == 4 {
 		pingKind = vrtBool("ping")
+	}
+	vrtSubackExtra = 0
+	if kind == 3 {
+		vrtSubackExtra = vrtChoice("suback_surplus_codes", 2)
 	}
 	vrtGo(func() {
 		switch kind {
@@ -128,7 +140,9 @@ func H12_completion() {
 	vrtQuiesce()
 	vrtAssert("C12.call_ok", callErr == nil)
 	vrtAssert("C12.completion_exactly_once", completions == 1)
-	if !(kind == 4 && !pingKind) {
+	if vrtSubackExtra > 0 {
+		vrtAssert("C12.malformed_suback_reported", cerr != nil)
+	} else if !(kind == 4 && !pingKind) {
 		vrtAssert("C12.completion_without_error", cerr == nil) // (unsubscribing a filter that was never subscribed reports an error to the callback)
 	}
 	if kind == 2 {
